@@ -365,7 +365,7 @@ func (oracleC16) Step(x *OCtx, t *Trans) []Violation {
 		switch {
 		case !pc.Repeated:
 			finished = "one-shot"
-		case stName(pc.State) == "completed":
+		case stName(pc.State) == "completed" || t.PreMon.Killed[id]:
 			finished = "killed"
 		case pc.RepeatedTotal > 0 && int64(pc.BatchCounter) >= pc.RepeatedTotal:
 			finished = "total-reached"
